@@ -6,4 +6,4 @@ class SubComp(_Rec):
     pass
 
 
-SUB_OBJ = ['sub', 'object']
+SUB_OBJ = ('sub', 'object')
